@@ -62,7 +62,21 @@ package main
 //@   modifies libWriter, libFailed, libCalls, lastConfig, lastForest, lnNodes, fsFailed, fsOps, Node.children, Node.parent, Node.brnch.value, Node.brnch.path, list.List.view, list.Element.backOf, counter.n, bufio.Scanner.pos, bufio.Scanner.failed, markdown.Parser.isSharpRoot, markdown.Parser.spaces, markdown.Parser.sep, out, wfail, defaultSpreaderSimple.w, encTrace, encoders, rsRoots, rsFailed, rsStopped, rsErr, gsRoots, gsFailed, gsStopped, gsErr, spRoots, spText, esFailed, defaultGrowerSimple.enabledValidation, maps
 //@   ensures coder [C16]: result != nil ==> isExitCoder(result) && exitCodeOf(result) != 0
 //@   ensures truthful [C16]: result == nil ==> libFailed == old(libFailed)
-//@ applies actionStatus to main.actionOutput, main.actionMkdir, main.actionVerify
+//@ applies actionStatus to main.actionVerify
+// mkdir: in addition, --dry-run must not reach the file system (it is routed to the library's Output with WithDryRun)
+//@ func main.actionMkdir
+//@   requires nn: c != nil
+//@   modifies libWriter, libFailed, libCalls, lastConfig, lastForest, lnNodes, fsFailed, fsOps, Node.children, Node.parent, Node.brnch.value, Node.brnch.path, list.List.view, list.Element.backOf, counter.n, bufio.Scanner.pos, bufio.Scanner.failed, markdown.Parser.isSharpRoot, markdown.Parser.spaces, markdown.Parser.sep, out, wfail, defaultSpreaderSimple.w, encTrace, encoders, rsRoots, rsFailed, rsStopped, rsErr, gsRoots, gsFailed, gsStopped, gsErr, spRoots, spText, esFailed, defaultGrowerSimple.enabledValidation, maps
+//@   ensures coder [C16]: result != nil ==> isExitCoder(result) && exitCodeOf(result) != 0
+//@   ensures truthful [C16]: result == nil ==> libFailed == old(libFailed)
+//@   ensures dryfs [C16,C09]: ctxBool(c, "dry-run") ==> fsOps == old(fsOps)
+// output and verify never reach the file system
+//@ func main.actionOutput
+//@   requires nn: c != nil
+//@   modifies libWriter, libFailed, libCalls, lastConfig, lastForest, lnNodes, fsFailed, fsOps, Node.children, Node.parent, Node.brnch.value, Node.brnch.path, list.List.view, list.Element.backOf, counter.n, bufio.Scanner.pos, bufio.Scanner.failed, markdown.Parser.isSharpRoot, markdown.Parser.spaces, markdown.Parser.sep, out, wfail, defaultSpreaderSimple.w, encTrace, encoders, rsRoots, rsFailed, rsStopped, rsErr, gsRoots, gsFailed, gsStopped, gsErr, spRoots, spText, esFailed, defaultGrowerSimple.enabledValidation, maps
+//@   ensures coder [C16]: result != nil ==> isExitCoder(result) && exitCodeOf(result) != 0
+//@   ensures truthful [C16]: result == nil ==> libFailed == old(libFailed)
+//@   ensures nofs [C16]: fsOps == old(fsOps)
 
 // main: when app.Run reports an error the process must not end with status 0. The normal return of main is
 // exit status 0, so reaching it requires that Run returned nil (os.Exit never returns).
